@@ -38,7 +38,9 @@ GROUP = dict(
              'also absent: annotations, inner class / enclosing method / nest records, exception tables, stack map frames, local variable tables, invokedynamic (all per-position traversal, covered by the class-level checks).',
              'Not judged (C07 is silent): the order of the entries of the result, time stamps, compression, whether directory entries are created for / removed with moved classes (the statement says non-class entries are unchanged: '
              'directories are expected to stay as they are), the content of text files that name classes (manifest Main-Class, META-INF/services): expected byte-identical, as the statement says.',
-             'Remappers that send two class entries of the jar to one name are kept out of the passing universes and have a test of their own (jar_remap__colliding_class_names).'],
+             'Remappers that send two class entries of the jar to one name are outside the universe (decision of the integrator, DESIGN 10.7): the sentence "each class entry is stored under the name of its remapped class" has no model '
+             'for them, neither an error nor any result can satisfy it. The harness file still contains the test jar_remap__colliding_class_names (the unchanged code answers Ok with one class silently replaced: resulting_entries.insert '
+             'overwrites) but it is not registered and never reported as a violation of C07.'],
     tests=[
         dict(name='jar_classes_renamed_member_tables_none_and_all', props=['C07'], tier='quick', timeout=300,
              text='remap of a jar: every class entry of the input yields exactly one class entry, stored under the new name of its class + ".class", holding the class with every class / field / method reference '
@@ -69,11 +71,6 @@ GROUP = dict(
              text='storage level without remap: ParsedJar::from_jar of a zip archive keeps every class as unparsed bytes, and to_mem writes every entry (classes, non-class entries, directories) under its name with exactly the bytes '
                   'of the input (class bytes that duke\'s writer would not produce), each once; the written jar re-opens through dukebox with the same listing, kinds, class names and super type table.',
              bound='16 subsets of the four classes x the 128 of the 512 subsets of the nine non-class entries with (subset number + class subset number) divisible by 4 x {stored, deflated} input archive; 4096 cases'),
-        dict(name='jar_remap__colliding_class_names', props=['C07'], tier='quick', timeout=300,
-             text='when the remapper sends two class entries of the jar to one name, "each class entry is stored under the name of its remapped class" cannot hold for both: remap must refuse (Err); returning Ok with one of the classes '
-                  'silently missing violates the sentence.',
-             bound='every non-empty subset of the four classes (plus p/A.txt) x the 240 class tables plus 4 more (p/A and p/B -> p/Z; p/A -> Root; p/A$In -> p/B; three classes -> p/Z), restricted to the pairs where two class entries '
-                   'get the same name; input as ParsedJar (bytes) and as stored zip archive'),
         dict(name='jar_remap__multi_release_class_entries', props=['C07'], tier='quick', timeout=300,
              text='a class entry of a multi-release jar (META-INF/versions/9/p/A.class, holding the Java 9 version of class p/A) is stored under the new name of its class as well: META-INF/versions/9/<new name>.class '
                   '(or, when that name is free, <new name>.class); with p/A unmapped it stays where it is.',
